@@ -345,6 +345,7 @@ func c15Run(c *core.Ctx, b core.Batch) {
 		c15FailSub(c, p)
 		c15Restart(c)
 		c15NonPositiveDuration(c)
+		c15FreshSubjects(c, p.Rounds)
 		c15StalledLink(c, 1600*time.Millisecond)
 		if p.Rounds > 100 {
 			c15StalledLink(c, 700*time.Millisecond)
